@@ -169,9 +169,8 @@ static void intdiv (uint64_t seed, int count)
         for (int y : all)
         {
             if (y == 0) continue;
-            // the functions negate their operands: stay clear of INT_MIN and of y - 1 - x overflowing
-            long t = (long) (y > 0 ? y : -y) - 1 - (long) x;
-            if (t > 2147483647L || t < -2147483647L) continue;
+            // the functions negate their operands (INT_MIN is not among the values); every other pair is in the domain, also
+            // those for which the rounding bias |y| - 1 - x does not fit an int
             fprintf (o, "{\"e\":\"idiv\",\"x\":%d,\"y\":%d,\"divs\":%d,\"mods\":%d,\"divp\":%d,\"modp\":%d}\n", x, y, divs (x, y), mods (x, y), divp (x, y), modp (x, y));
         }
 }
@@ -281,8 +280,27 @@ template <class T> static void int_helpers_T (const char* tag, VtRng& rng, int c
           fprintf (o, "{\"e\":\"ifn\",\"fn\":\"ulerp\",\"t\":\"%s\",\"a\":[%ld,%ld,%d],\"out\":%ld}\n", tag, la, lb, num, (long) ulerp ((T) la, (T) lb, t)); }
     }
 }
+// cmp / cmpt at the ends of the range: operand pairs whose difference does not fit the element type (INT_MAX against -1,
+// 0u against 1u): the comparison is still a comparison
+template <class T> static void int_compare_extremes (const char* tag)
+{
+    const long top = 2147483647L;
+    std::vector<long> ex = {top, top - 1, top / 2, 2, 1, 0};
+    if (std::numeric_limits<T>::is_signed) { ex.push_back (-1); ex.push_back (-2); ex.push_back (-top / 2); ex.push_back (-top); }
+    for (long a : ex) for (long b : ex)
+    {
+        fprintf (o, "{\"e\":\"ifn\",\"fn\":\"cmp\",\"t\":\"%s\",\"a\":[%ld,%ld],\"out\":%d}\n", tag, a, b, (int) cmp ((T) a, (T) b));
+        // cmpt forms the magnitude of the difference in the element type: pairs whose difference does not fit it are outside
+        // its domain (for unsigned types every difference fits)
+        long diff = a > b ? a - b : b - a;
+        if (std::numeric_limits<T>::is_signed && sizeof (T) == 4 && diff > top) continue;
+        for (long t : {0L, 1L, 5L})
+            fprintf (o, "{\"e\":\"ifn\",\"fn\":\"cmpt\",\"t\":\"%s\",\"a\":[%ld,%ld,%ld],\"out\":%d}\n", tag, a, b, t, (int) cmpt ((T) a, (T) b, (T) t));
+    }
+}
 static void int_helpers (uint64_t seed, int count)
 {
+    int_compare_extremes<int> ("i32"); int_compare_extremes<unsigned int> ("u32"); int_compare_extremes<long> ("i64");
     VtRng rng (seed + 31);
     int_helpers_T<int> ("i32", rng, count); int_helpers_T<unsigned int> ("u32", rng, count);
     int_helpers_T<short> ("i16", rng, count); int_helpers_T<unsigned short> ("u16", rng, count);
